@@ -50,6 +50,7 @@ impl InstructionGenerator {
             }
             // run matched CASE block statements
             self.visit(statements);
+            self.mark_statement_address(); // to be able to resume on error
             // jump out of SELECT
             self.jump(labels::end_select(), pos);
         }
